@@ -419,6 +419,16 @@ def instances():
         "C14": ["c04_replace_entry_validity_n8", "c07_elem_entry_n8"],
         "C04": [],
     }
+    # Core pack: the structural mechanisms every state-dependent property rests on (erase's tombstone decision,
+    # tombstone-aware insert, in-place rehash, growth, free-slot accounting of replace_bucket_with, the rehash
+    # panic guard). A change to one of them breaks most properties at once, whichever one it is filed under.
+    CORE = ["c06_remove_n16", "c06_insert_n16", "c06_rehash_ct8_b1", "c14_map_occ_replace_entry_with_n8",
+            "c06_insert_n4_grow", "c04_rehash_hook_drop_n4"]
+    for prop in ("C01", "C02", "C03", "C05", "C07", "C09", "C10", "C11", "C14", "C15"):
+        SHARE.setdefault(prop, [])
+        for n in CORE:
+            if n not in SHARE[prop]:
+                SHARE[prop].append(n)
     byname = {i["name"]: i for i in L}
     for prop, names in SHARE.items():
         for n in names:
